@@ -31,6 +31,24 @@ fn probe() -> Fingerprint {
     // a name nobody has heard of: every variable the code asks for is a seam
     f.text("envvar_unknown_name", &format!("{:?}|{:?}", std::env::var("LINFA_SIM_PROBE_A"), std::env::var("SOME_OTHER_DEFAULT_B")));
     f.one("available_parallelism", std::thread::available_parallelism().map(|n| n.get()).unwrap_or(0));
+    // threads the workload spawns itself: their simulated identity (entropy) is a function of the
+    // environment; their arrival order is perturbed by seeded start-up delays
+    let (tx, rx) = std::sync::mpsc::channel();
+    std::thread::scope(|s| {
+        for i in 0..4u64 {
+            let tx = tx.clone();
+            s.spawn(move || {
+                let e: u64 = rand::thread_rng().gen();
+                tx.send((i, e)).unwrap();
+            });
+        }
+    });
+    drop(tx);
+    let got: Vec<(u64, u64)> = rx.iter().collect();
+    let mut by_thread = got.clone();
+    by_thread.sort();
+    f.seq("foreign_thread_entropy", by_thread.iter().map(|x| x.1));
+    // (the arrival order itself is under the OS scheduler's control and is not fingerprinted)
     // combinators whose RESULT depends on shared state (preemption points in the vendored rayon)
     let order: Vec<u32> = (0..96u32).par_bridge().collect();
     f.seq("par_bridge_order", order);
@@ -111,7 +129,7 @@ fn run_pinned() -> i32 {
     }
     // entropy seam live: hash order, thread_rng, from_entropy follow the entropy seed and nothing else
     let ee = run_sim(&Env { entropy_seed: 1, ..Env::reference() }, probe).results.unwrap().remove(0);
-    for n in ["hashorder", "thread_rng", "from_entropy"] {
+    for n in ["hashorder", "thread_rng", "from_entropy", "foreign_thread_entropy"] {
         if field(&base, n) == field(&ee, n) {
             fail(&format!("entropy seam not live: `{n}` did not change with the entropy seed"));
         }
